@@ -8,6 +8,7 @@ import attr
 
 import asn1crypto
 
+from cryptodatahub.common.exception import InvalidValue
 from cryptodatahub.common.key import PublicKeyX509Base
 from cryptodatahub.common.stores import CertificateTransparencyLog, CertificateTransparencyLogParamsBase
 
@@ -71,6 +72,8 @@ class SignedCertificateTimestamp(ParsableBase, Serializable):
         body_parser.parse_numeric('version', 1, CtVersion)
         body_parser.parse_raw('log', 32)
         body_parser.parse_timestamp('timestamp', milliseconds=True)
+        if body_parser['timestamp'] is None:
+            raise InvalidValue(2 ** 64 - 1, cls, 'timestamp')
         body_parser.parse_parsable('extensions', CtExtensions)
         body_parser.parse_parsable('signature_algorithm', TlsSignatureAndHashAlgorithmFactory)
         body_parser.parse_parsable('signature', CtSignature)
